@@ -21,10 +21,10 @@ BU = "broadcast use group_paths;\nbroadcast use group_fmt;\nbroadcast use lemma_
 
 # literals of the statement (system locations, folder and file names) and their components
 LITS = [
-    ("/etc/azure/proxy-agent.json", ["/", "etc", "azure", "proxy-agent.json"]),
-    ("/usr/lib/azure-proxy-agent/ebpf_cgroup.o", ["/", "usr", "lib", "azure-proxy-agent", "ebpf_cgroup.o"]),
-    ("/usr/sbin", ["/", "usr", "sbin"]),
-    ("/usr/lib/systemd/system/", ["/", "usr", "lib", "systemd", "system"]),
+    ("/etc/azure/proxy-agent.json", ["/", "etc", "azure", "proxy-agent.json"], "sys_config()"),
+    ("/usr/lib/azure-proxy-agent/ebpf_cgroup.o", ["/", "usr", "lib", "azure-proxy-agent", "ebpf_cgroup.o"], "sys_ebpf()"),
+    ("/usr/sbin", ["/", "usr", "sbin"], "dir_sbin()"),
+    ("/usr/lib/systemd/system/", ["/", "usr", "lib", "systemd", "system"], "dir_systemd()"),
     ("azure-proxy-agent", ["azure-proxy-agent"]),
     ("proxy-agent.json", ["proxy-agent.json"]),
     ("ebpf_cgroup.o", ["ebpf_cgroup.o"]),
@@ -45,7 +45,7 @@ def lit_lemmas():
     ens = []
     body = []
     names = set()
-    for lit, comps in LITS:
+    for lit, comps, *_ in LITS:
         names.add(lit)
         for c in comps:
             if c != "/":
@@ -53,12 +53,24 @@ def lit_lemmas():
     for n in sorted(names):
         ens.append('        "%s"@.len() == %d,' % (n, len(n)))
         body.append('    reveal_strlit("%s"); assert("%s"@ =~= %s);' % (n, n, _chars(n)))
-    for lit, comps in LITS:
+    for lit, comps, *nm in LITS:
         cs = ", ".join("root()" if c == "/" else '"%s"@' % c for c in comps)
-        ens.append('        plain("%s"@) && parse_path("%s"@) == seq![%s],' % (lit, lit, cs))
+        ens.append('        plain("%s"@) && parse_path("%s"@) == %s,' % (lit, lit, nm[0] if nm else "seq![%s]" % cs))
         ccs = ", ".join(_chars(c) for c in comps)
         body.append("    assert(plain(%s) && parse_path(%s) == seq![%s]) by (compute);" % (_chars(lit), _chars(lit), ccs))
     return "pub proof fn lemma_lits()\n    ensures\n" + "\n".join(ens) + "\n{\n" + "\n".join(body) + "\n}\n"
+
+
+def call_e9(sf, fnpath, callee, nth, params, ret, contract, name, body):
+    """E9 on the nth call of `callee` inside fn: anchor and argument texts are taken from the index (verbatim source)"""
+    from vxlib import Undecided
+    it = sf.item(fnpath, "fn")
+    cs = [c for c in it["calls"] if c.get("callee", "").replace(" ", "") == callee]
+    if len(cs) <= nth:
+        raise Undecided("%s: call #%d of %s not found" % (fnpath, nth, callee))
+    c = cs[nth]
+    args = ", ".join(sf.s(a[0], a[1]) for a in c["args"])
+    return (sf.s(c["span"][0], c["span"][1]), None, params + ", " + W, args + ", " + WA, ret, contract, dict(name=name, body=body))
 
 
 def build(u):
@@ -71,6 +83,9 @@ def build(u):
     s_lx = u.src("proxy_agent_shared/src/linux.rs")
     s_mh = u.src("proxy_agent_shared/src/misc_helpers.rs")
     s_er = u.src("proxy_agent_shared/src/error.rs")
+    s_lm = u.src("proxy_agent_shared/src/logger/logger_manager.rs")
+    s_sv = u.src("proxy_agent_shared/src/service.rs")
+    s_ls = u.src("proxy_agent_shared/src/service/linux_service.rs")
     for f in ("str_axioms.rs", "ext_types.rs", "std_string.rs"):
         u.raw(open(os.path.join(COMMON, f)).read())
     u.raw_file("spec.rs")
@@ -95,6 +110,67 @@ def build(u):
         ensures pbv(r) == exe_dir(),
 """)
             u.take_fn(s_mh, "get_proxy_agent_version", external_body=True)
+            u.take_fn(s_mh, "path_to_string", external_body=True)
+            u.take(s_mh, "CommandOutput", "struct")
+            with u.impl_(s_mh, "CommandOutput"):
+                u.take_fn(s_mh, "CommandOutput::message", external_body=True)
+            u.take_fn(s_mh, "execute_command", external_body=True, ghost=W, contract="""
+        ensures cmd_post(*old(w), *final(w), program@, strs_view(args@), r is Ok),
+""")
+        with u.mod("logger"):
+            with u.mod("logger_manager"):
+                u.take_fn(s_lm, "write_info", external_body=True, ret="")
+        with u.mod("service", uses="use std::path::PathBuf;\nuse crate::proxy_agent_shared::result::Result;"):
+            with u.mod("linux_service", uses="use crate::proxy_agent_shared::linux;\nuse crate::proxy_agent_shared::logger::logger_manager;\nuse crate::proxy_agent_shared::misc_helpers;\nuse crate::proxy_agent_shared::result::Result;\nuse std::fs;\nuse std::path::PathBuf;"):
+                NAME = "service_name@ == n_exe()"
+                CMD1 = """
+        requires %s,
+        ensures cmd_post(*old(w), *final(w), "systemctl"@, seq!["%%s"@, n_exe()], r is Ok),  // @C17.%%s.issues_systemctl_%%s
+""" % NAME
+                EXEC = ("misc_helpers::execute_command(", None, WA)
+                PB = BU + "broadcast use lemma_strs1, lemma_strs2;\nproof { lemma_lits(); lemma_names(); lemma_verbs(); }"
+                def vec_hint(verb):
+                    return []
+                for fn, verb in (("stop_service", "stop"), ("start_service", "start"), ("unmask_service", "unmask"),
+                                 ("disable_service", "disable"), ("enable_service", "enable")):
+                    u.take_fn(s_ls, fn, ghost=W, ghost_calls=[EXEC], pre_body=PB, contract=CMD1 % (verb, fn, verb))
+                u.take_fn(s_ls, "reload_systemd_daemon", ghost=W, ghost_calls=[EXEC], pre_body=PB, contract="""
+        ensures cmd_post(*old(w), *final(w), "systemctl"@, seq!["daemon-reload"@], r is Ok),
+""")
+                u.take_fn(s_ls, "install_or_update_service", ghost=W, pre_body=PB,
+                          ghost_calls=[("unmask_service(", None, WA), ("reload_systemd_daemon(", None, WA), ("enable_service(", None, WA)],
+                          contract="""
+        requires %s,
+        ensures enable_post(*old(w), *final(w), r is Ok),
+""" % NAME)
+                u.take_fn(s_ls, "delete_service_config_file", ghost=W, pre_body=PB,
+                          ghost_calls=[("reload_systemd_daemon(", None, WA)],
+                          e9=[("""format!("{}.service", service_name)""", None, "service_name: &str", "service_name", "String",
+                               """        ensures r@ == service_name@ + ".service"@,""", dict(name="vx_e9_format_unit_name2")),
+                              call_e9(s_ls, "delete_service_config_file", "fs::remove_file", 0, "a: &PathBuf", "std::io::Result<()>", """
+        ensures remove_post(*old(w), *final(w), asref_pv(a), r is Ok),""", "vx_e9_fs_remove_unit", "fs::remove_file(a)")],
+                          contract="""
+        requires %s,
+        ensures remove_unit_post(*old(w), *final(w), r is Ok),
+""" % NAME)
+                u.take_fn(s_ls, "uninstall_service", ghost=W, pre_body=PB,
+                          ghost_calls=[("disable_service(", None, WA), ("delete_service_config_file(", None, WA)],
+                          contract="""
+        requires %s,
+        ensures remove_unit_post(*old(w), *final(w), r is Ok),
+""" % NAME)
+                u.flush_e9()
+            u.take_fn(s_sv, "install_service", ghost=W, ghost_calls=[("linux_service::install_or_update_service(", None, WA)], contract="""
+        requires %s,
+        ensures enable_post(*old(w), *final(w), r is Ok),
+""" % NAME)
+            u.take_fn(s_sv, "stop_and_delete_service", ghost=W, pre_body="proof { lemma_names(); lemma_verbs(); }",
+                      ghost_calls=[("linux_service::stop_service(", None, WA), ("linux_service::uninstall_service(", None, WA)], contract="""
+        requires %s,
+        ensures stop_and_delete_post(*old(w), *final(w), r is Ok),
+""" % NAME)
+            u.take_fn(s_sv, "start_service", ghost=W, ghost_calls=[("linux_service::start_service(", None, WA)], contract=CMD1 % ("start", "service.start_service", "start"))
+            u.take_fn(s_sv, "stop_service", ghost=W, ghost_calls=[("linux_service::stop_service(", None, WA)], contract=CMD1 % ("stop", "service.stop_service", "stop"))
 
     u.raw("""
 #[verifier::external_body]
@@ -129,26 +205,16 @@ pub broadcast group group_fmt { axiom_fmt_pathbuf, axiom_fmt_path, axiom_fmt_ioe
 """)
     with u.mod("running", uses="use crate::logger;\nuse proxy_agent_shared::misc_helpers;\nuse std::path::{Path, PathBuf};"):
         u.take_fn(rn, "proxy_agent_running_folder", pre_body=BU + "proof { lemma_lits(); }", contract="""
-        ensures pbv(r) == seq![root(), "usr"@, "sbin"@],  // @C17.proxy_agent_running_folder.is_usr_sbin
+        ensures pbv(r) == dir_sbin(),  // @C17.proxy_agent_running_folder.is_usr_sbin
 """)
         u.take_fn(rn, "proxy_agent_version_target_folder", pre_body=BU + "proof { lemma_lits(); }", contract="""
-        ensures pbv(r) == seq![root(), "usr"@, "sbin"@],  // @C17.proxy_agent_version_target_folder.is_usr_sbin
+        ensures pbv(r) == dir_sbin(),  // @C17.proxy_agent_version_target_folder.is_usr_sbin
 """, e9=[("""panic!("Failed to get proxy agent version with error: {}", e)""", None, "e: &proxy_agent_shared::error::Error", "&e", "!", "", dict(name="vx_e9_panic_version"))])
         u.flush_e9()
 
     with u.mod("linux", uses="use crate::{backup, logger, result::Result, running};\nuse proxy_agent_shared::misc_helpers;\nuse std::{fs, path::PathBuf};"):
         for c in ("SERVICE_CONFIG_FILE_NAME", "CONFIG_FILE", "EBPF_FILE", "CONFIG_PATH", "EBPF_PATH"):
             u.take(lx, c, "const")
-        def call_e9(sf, fnpath, callee, nth, params, ret, contract, name, body):
-            """E9 on the nth call of `callee` inside fn: anchor and argument texts are taken from the index (verbatim source)"""
-            from vxlib import Undecided
-            it = sf.item(fnpath, "fn")
-            cs = [c for c in it["calls"] if c.get("callee", "").replace(" ", "") == callee]
-            if len(cs) <= nth:
-                raise Undecided("%s: call #%d of %s not found" % (fnpath, nth, callee))
-            c = cs[nth]
-            args = ", ".join(sf.s(a[0], a[1]) for a in c["args"])
-            return (sf.s(c["span"][0], c["span"][1]), None, params + ", " + W, args + ", " + WA, ret, contract, dict(name=name, body=body))
         COPY_C = """
         requires asref_pv(a) != asref_pv(b),
         ensures copy_post(*old(w), *final(w), asref_pv(a), asref_pv(b), r is Ok),"""
@@ -216,3 +282,77 @@ pub broadcast group group_fmt { axiom_fmt_pathbuf, axiom_fmt_path, axiom_fmt_ioe
             quiet_ext(old(w).tr, final(w).tr),  // @C17.delete_files.no_stop_or_start
 """)
         u.flush_e9()
+
+    # ---------------- main.rs: helper fns and the five command arms (E5b slices), at the crate root ----------------
+    mn = u.src("proxy_agent_setup/src/main.rs")
+    ar = u.src("proxy_agent_setup/src/args.rs")
+    with u.mod("args"):
+        u.take(ar, "UninstallMode", "enum", structural=True)
+    u.raw("use proxy_agent_shared::misc_helpers;\nuse proxy_agent_shared::service;\nuse std::process;\nuse std::time::Duration;\nuse std::{fs, path::PathBuf};")
+    u.take(mn, "SERVICE_DISPLAY_NAME", "const")
+    u.take(mn, "SERVICE_NAME", "const")
+    PBM = BU + "proof { lemma_lits(); lemma_names(); lemma_verbs(); lemma_layout(); }"
+    PBN = BU + "proof { lemma_lits(); lemma_names(); lemma_verbs(); }"
+    u.take_fn(mn, "copy_proxy_agent", ghost=W, pre_body=PBM, ghost_calls=[("linux::copy_files(", None, WA)], contract="""
+        requires wf_layout(),
+        ensures
+            pbv(r) == dir_sbin(),
+            old(w).fault ==> final(w).fault,
+            !final(w).fault ==> final(w).fs =~= place3(old(w).fs, pkg_dir()),  // @C17.copy_proxy_agent.places_the_packaged_files
+            forall|p: PathV| !is_sys(p) ==> #[trigger] at(final(w).fs, p) == at(old(w).fs, p),  // @C17.copy_proxy_agent.only_system_locations_change
+            quiet_ext(old(w).tr, final(w).tr),
+""")
+    u.take_fn(mn, "backup_proxy_agent", ghost=W, ret="", pre_body=PBM, ghost_calls=[("linux::backup_files(", None, WA)], contract="""
+        requires wf_layout(),
+        ensures
+            old(w).fault ==> final(w).fault,
+            !final(w).fault ==> final(w).fs =~= backup_op(old(w).fs),  // @C17.backup_proxy_agent.backup_slots_hold_system_files
+            forall|p: PathV| !is_bak_slot(p) ==> #[trigger] at(final(w).fs, p) == at(old(w).fs, p),  // @C17.backup_proxy_agent.nothing_else_changes
+            neutral_ext(old(w).tr, final(w).tr),
+""")
+    u.take_fn(mn, "restore_proxy_agent", ghost=W, pre_body=PBM, ghost_calls=[("linux::copy_files(", None, WA)], contract="""
+        requires wf_layout(),
+        ensures
+            pbv(r) == dir_sbin(),
+            old(w).fault ==> final(w).fault,
+            !final(w).fault ==> final(w).fs =~= place3(old(w).fs, backup_pkg_dir()),  // @C17.restore_proxy_agent.restores_from_Backup_Package
+            forall|p: PathV| !is_sys(p) ==> #[trigger] at(final(w).fs, p) == at(old(w).fs, p),  // @C17.restore_proxy_agent.only_system_locations_change
+            quiet_ext(old(w).tr, final(w).tr),
+""")
+    u.take_fn(mn, "stop_service", ghost=W, ret="", pre_body=PBN, ghost_calls=[("service::stop_service(", None, WA)], contract="""
+        ensures
+            final(w).fs == old(w).fs,
+            old(w).fault ==> final(w).fault,
+            !final(w).fault ==> final(w).tr == old(w).tr.push(systemctl("stop"@)),  // @C17.stop_service.stop_issued
+""")
+    u.take_fn(mn, "setup_service", ghost=W, ret="", pre_body=PBN,
+              ghost_calls=[("linux::setup_service(", None, WA), ("service::install_service(", None, WA), ("service::start_service(", None, WA)], contract="""
+        requires pbv(_service_config_folder_path).push(n_unit()) != sys_unit(),
+        ensures setup_service_post(*old(w), *final(w), pbv(_service_config_folder_path).push(n_unit())),
+""")
+    u.take_fn(mn, "check_backup_exists", ghost=W, pre_body=PBN,
+              e9=[("proxy_agent_exe.exists()", None, "p: &PathBuf, " + W, "&proxy_agent_exe, " + WA, "bool", """
+        ensures *final(w) == *old(w), r == old(w).fs.dom().contains(pbv(*p)),""", dict(name="vx_e9_path_exists", body="p.exists()"))],
+              contract="""
+        ensures *final(w) == *old(w), r == old(w).fs.dom().contains(bak_exe()),  // @C17.check_backup_exists.looks_at_the_backed_up_executable
+""")
+    u.take_fn(mn, "uninstall_service", ghost=W, pre_body=PBN, ghost_calls=[("service::stop_and_delete_service(", None, WA)], contract="""
+        ensures stop_and_delete_post(*old(w), *final(w), true),
+""")
+    u.take_fn(mn, "delete_package", ghost=W, ret="", pre_body=PBN, ghost_calls=[("linux::delete_files(", None, WA)], contract="""
+        ensures
+            old(w).fault ==> final(w).fault,
+            !final(w).fault ==> final(w).fs =~= rm(rm(rm(old(w).fs, sys_exe()), sys_config()), sys_ebpf()),  // @C17.delete_package.removes_the_installed_files
+            forall|p: PathV| !is_sys(p) ==> #[trigger] at(final(w).fs, p) == at(old(w).fs, p),
+            quiet_ext(old(w).tr, final(w).tr),
+""")
+    u.take_fn(mn, "delete_folder", ghost=W, ret="", pre_body=PBN,
+              e9=[call_e9(mn, "delete_folder", "fs::remove_dir_all", 0, "a: &PathBuf", "std::io::Result<()>", """
+        ensures remove_tree_post(*old(w), *final(w), asref_pv(a), r is Ok),""", "vx_e9_fs_remove_dir_all", "fs::remove_dir_all(a)")],
+              contract="""
+        ensures delete_folder_post(*old(w), *final(w), pbv(folder_to_be_delete)),
+""")
+    u.take_fn(mn, "delete_backup_folder", ghost=W, ret="", pre_body=PBN, ghost_calls=[("delete_folder(", None, WA)], contract="""
+        ensures delete_folder_post(*old(w), *final(w), backup_dir()),  // @C17.delete_backup_folder.removes_the_backup_folder
+""")
+    u.flush_e9()
